@@ -24,7 +24,7 @@ def main():
             print("ERROR", o["unit"], o["split"], o["error"][-1500:]); bad += 1
             continue
         for r in o.get("records", []):
-            if r.get("status") != "discharged":
+            if r.get("status") not in ("discharged", "known"):
                 bad += 1
                 print(json.dumps({k: v for k, v in r.items() if k not in ("smt2",)}, default=str)[:1500])
     n = sum(len(o.get("records", [])) for o in outs)
